@@ -184,7 +184,13 @@ fn attempt_word(
             };
             w.push(mk(event::Step::Started));
             if cfg.logs && r.chance(1, 6) {
-                w.push(Scenario::Log(format!("log line {}\n", nt())));
+                // (some messages have several lines, an empty one among them, and some are long)
+                let n = nt();
+                w.push(Scenario::Log(match n % 4 {
+                    0 => format!("log line {n}\n\n  continued after an empty line\n"),
+                    1 => format!("log line {n} {}\n", "with a long tail of words that will not fit into a narrow terminal row ".repeat(1 + (n % 2) as usize)),
+                    _ => format!("log line {n}\n"),
+                }));
             }
             if i == stop && outcome == 1 {
                 let err = if cfg.not_found && r.chance(1, 4) {
